@@ -33,7 +33,9 @@ RULE = ("(a) seeded traces of 0-12 events (reports of the three severities with 
         "compile-time, evaluation-time, and faults living only in an unused forward-referencing definition) and 0-2 planted warnings, each run through the command line in both report formats under random -W "
         "selections with an output selector (-o bin/raw, --implicit-bin, make_* directives, --lst, none), half of them over pre-existing "
         "output files; plus whole families: one program (one fault in an unused definition, or warnings only) under every output selector x "
-        "with/without --lst, whose status must not depend on the output options. non-trivial = distinct (fault kinds, warning kinds, selector, -W list, format) with >= 1 planted fault or warning, "
+        "with/without --lst, whose status must not depend on the output options; plus a display stream: programs of statements that span lines "
+        "(word lists / operand lists continued after a comma, operand on the next line), share a line, or use legacy spellings, so that every warning "
+        "kind of WARNING_CLASSES['all'] is displayed under both formats x (none, -Wall, -Wno-all, -Wdefault, each single name, -Wall -Wno-name). non-trivial = distinct (fault kinds, warning kinds, selector, -W list, format) with >= 1 planted fault or warning, "
         "or a distinct trace containing an error-severity report")
 LEVEL_TEXT = ("Coq theorems over decision functions regenerated from reports.py / _cli.py on every run (emit_report, handle_reports.__exit__, "
               "FilterHandler.__call__, the -W loop): a block is left by UnrecoverableError iff an error- or critical-severity report was executed "
@@ -353,7 +355,7 @@ BARE_RE = re.compile(r"^.*?:\d+:\d+: (Error|Warning): ")
 GRAPH_RE = re.compile(r"^\x1b\[(91mError|33mWarning)\x1b\[0m in .*\[-W([^\]]*)\]")
 
 
-def run_cli(d, files, adir, decoys, argv, timeout=60):
+def run_cli(d, files, adir, decoys, argv, timeout=60, hashseed=None):
     """One run in a fresh directory d (created and removed here)."""
     shutil.rmtree(d, ignore_errors=True)
     make_dir(d, files, adir, decoys)
@@ -362,6 +364,8 @@ def run_cli(d, files, adir, decoys, argv, timeout=60):
     env["PYTHONPATH"] = C.REPO
     env["PYTHONDONTWRITEBYTECODE"] = "1"
     env.setdefault("PYTHONHASHSEED", "0")
+    if hashseed is not None:
+        env["PYTHONHASHSEED"] = str(hashseed)
     status, out, err = -9, "", "TIMEOUT"
     for attempt_timeout in (timeout, 4 * timeout):       # a loaded machine must not look like a hang: retry once, longer
         try:
@@ -478,6 +482,72 @@ def make_group(rng, gi, wnames, tier):
             "sel_argv": sel_argv, "expected": expected, "variants": variants}
 
 
+# statements that span lines / share a line / use legacy spellings: (warning ids it must raise, lines); {n} = a fresh digit, {insn} = a mnemonic
+DISPLAY = [
+    (["missing-newline"], ["1,", " 2 nop"]),                       # word list continued on the next line, then an instruction on that line
+    (["missing-newline"], ["3,", " 4,", "\t5 halt"]),
+    ([], [".word 1,", " 2"]),
+    ([], [".word 1,", " 2 nop"]),
+    ([], [".byte 1,", " 2", ".even"]),
+    ([], ["mov r0,", " r1"]),
+    ([], ["mov r0,", " r1 nop"]),
+    ([], ['.ascii "ab"', " <15> <12>", ".even"]),
+    (["unexpected-newline"], [".blkb", "2"]),                       # operand on the next line
+    (["unexpected-newline"], [".blkw", "1 nop"]),
+    (["missing-newline"], ["nop nop nop"]),                         # instructions sharing a line (two reports, two spans each)
+    (["missing-newline"], ["\tnop\tnop"]),
+    (["missing-newline"], [".repeat 2 {", " nop nop", "}"]),
+    (["excess-quote"], [".word 'a'"]),
+    (["excess-quote"], ['.word "ab"']),
+    (["legacy-deferred"], ["clr @r0"]),
+    (["implicit-index"], ["clr @(r0)"]),
+    (["suspicious-name"], ["{insn}: nop"]),
+    (["suspicious-name"], ["{insn}: 1,", " 2 nop"]),
+    (["implicit-operand"], [".word"]),
+    (["implicit-operand"], [".byte", ".even"]),
+    (["not-implemented"], [".page"]),
+    (["not-implemented"], ['.title "x"']),
+    (["label-fixup"], ["{n}: br {n}+2"]),                           # three spans
+    (["excess-hash"], ["emt #5"]),
+    (["meta-typo"], ["word 5"]),
+]
+# multi-line / multi-span errors: the run fails, identically under every format and -W selection
+DISPLAY_ERRORS = [[".word 1 +", " 2"], [".word (1 +", " 2)"], ["dq{n}: nop", "nop", "dq{n}: nop"], ["qq{n} = 1 +", " 2"]]
+
+
+def make_display_group(rng, di, gi, wnames):
+    """A program made of such statements, run under BOTH formats x {no -W, -Wall, -Wno-all, -Wdefault, -W<each warning it raises>,
+    -Wall -Wno-<each>}: every variant must give the same status, files and bytes."""
+    blocks = [[l] for l in gen_base(rng, "d")]          # blocks are never split: a construct's lines stay adjacent
+    k = len(DISPLAY)
+    ncover = (k + 4) // 5                                # the first programs walk through DISPLAY, five constructs each
+    picks = [DISPLAY[(di * 5 + j) % k] for j in range(5)] + [rng.choice(DISPLAY) for _ in range(rng.randint(0, 3))]
+    wids, n = [], 0
+    susp = list(SUSPICIOUS)
+    rng.shuffle(susp)
+    for ids, tl in picks:
+        n += 1
+        if any("{insn}" in x for x in tl) and not susp:
+            continue
+        insn = susp.pop() if any("{insn}" in x for x in tl) else ""
+        fl = [x.replace("{n}", str(n)).replace("{insn}", insn) for x in tl]
+        blocks.insert(rng.randrange(len(blocks) + 1), fl + ["nop"])     # a plain statement after it keeps numeric labels / word lists apart
+        wids += ids
+    kinds = []
+    if di >= ncover and di % 2 == 0:
+        e = DISPLAY_ERRORS[(di // 2) % len(DISPLAY_ERRORS)]
+        blocks.insert(rng.randrange(len(blocks) + 1), [x.replace("{n}", "9") for x in e])
+        kinds = ["multi-line-error"]
+    lines = [l for b in blocks for l in b]
+    lst = di % 2 == 0
+    lines, sel_argv, expected = apply_selector(rng, lines, "o-bin", lst)
+    names = sorted(set(wids))
+    wsel = [[], ["all"], ["no-all"], ["default"], ["no-default", "all"]] + [[w] for w in names] + [["all", "no-" + w] for w in names[:3]]
+    variants = [("bare", [])] + [(fmt, ws) for ws in wsel for fmt in ("graphical", "bare") if (fmt, ws) != ("bare", [])]
+    return {"gi": gi, "files": {"a.mac": "\n".join(lines) + "\n"}, "adir": False, "decoys": [], "kinds": kinds, "wids": wids, "sel": "o-bin", "lst": lst,
+            "sel_argv": sel_argv, "expected": expected, "variants": variants, "display": True}
+
+
 def argv_of(g, fmt, ws):
     return ["--report-format", fmt] + w_argv(ws) + g["sel_argv"] + sorted(g["files"])
 
@@ -513,11 +583,13 @@ def ascii_ok(s):
     return all(32 <= ord(c) < 127 for c in s)
 
 
-def cli_part(rep, rng, tier, ngroups, use_coq=True, nfamilies=0):
+def cli_part(rep, rng, tier, ngroups, use_coq=True, nfamilies=0, ndisplay=0):
     wnames = all_warning_names()
     groups = [make_group(rng, gi, wnames, tier) for gi in range(ngroups)]
     for fi in range(nfamilies):
         groups += make_family(rng, fi, len(groups), wnames)
+    for di in range(ndisplay):
+        groups.append(make_display_group(rng, di, len(groups), wnames))
     with ThreadPoolExecutor(max_workers=C.NPROC) as ex:
         all_runs = list(ex.map(run_group, groups))
     family_ref = {}
@@ -528,6 +600,7 @@ def cli_part(rep, rng, tier, ngroups, use_coq=True, nfamilies=0):
         rep.exhaustive_parts.append(f"{nfamilies} programs each run under all {len(SELECTORS)} output selectors x with/without --lst "
                                     f"(status must not depend on the output options); unused-definition fault kinds: {len(UNUSED)}")
     terms, meta = [], []
+    shown_graph, shown_bare = set(), set()
     for g, runs in zip(groups, all_runs):
         full, outcome = inprocess_full(g["files"], g["adir"], f"g{g['gi']}")
         ref = runs[0]
@@ -545,6 +618,13 @@ def cli_part(rep, rng, tier, ngroups, use_coq=True, nfamilies=0):
             rep.count("cli:" + ("ok" if run["status"] == 0 else ("internal-error" if run["internal"] else "failed")))
             rep.count("selector:" + g["sel"] + ("+lst" if g["lst"] else ""))
             rep.count("format:" + fmt)
+            if g.get("display"):
+                rep.count("display-run")
+                if fmt == "graphical":
+                    for _, ident in run["shown"]:
+                        shown_graph.add(ident)
+                elif ws in (["all"],) or (len(ws) == 1 and ws[0] in g["wids"]):
+                    shown_bare.update(w for w in g["wids"] if ws == ["all"] or ws == [w])
             for k in g["kinds"]:
                 rep.count("fault:" + k)
             for w in g["wids"]:
@@ -572,6 +652,14 @@ def cli_part(rep, rng, tier, ngroups, use_coq=True, nfamilies=0):
                 continue
             terms.append(cli_case_term(g, fmt, ws, full, outcome, run, same))
             meta.append((inp, run, probs, full, outcome))
+    if ndisplay:
+        allw = set(all_warning_names()[:-2])
+        missing = sorted(allw - shown_graph)
+        rep.exhaustive_parts.append(f"display stream: {ndisplay} programs of multi-line / shared-line / legacy-spelling statements, each under both formats x "
+                                    f"(none, -Wall, -Wno-all, -Wdefault, every single warning, -Wall -Wno-x); warning kinds of WARNING_CLASSES['all'] actually displayed "
+                                    f"in graphical format: {len(allw & shown_graph)}/{len(allw)}")
+        if missing and use_coq:
+            rep.disagree("display stream: a warning kind of WARNING_CLASSES['all'] was never displayed in graphical format", {"missing": missing})
     if len(rep.samples) < 4 and meta:
         inp, run, _, full, _ = meta[0]
         rep.sample({"cli_argv": inp["argv"], "source": inp["files"]["a.mac"][:300], "status": run["status"], "written": run["changed"],
@@ -803,7 +891,7 @@ def explore(rep, br, tier, seed):
         catalogue_selftest(rep)
         block_part(rep, rng, 400 if tier == "quick" else 4000)
         wargs_part(rep, rng, 150 if tier == "quick" else 1500)
-        cli_part(rep, rng, tier, 126 if tier == "quick" else 700, nfamilies=4 if tier == "quick" else 14)
+        cli_part(rep, rng, tier, 126 if tier == "quick" else 700, nfamilies=4 if tier == "quick" else 14, ndisplay=8 if tier == "quick" else 40)
     finally:
         cleanup()
 
@@ -835,7 +923,7 @@ def search(rep, br, tier, seed):
                             replay="props.c07.run_block(warning_control, swallow, trace)")
                 break
         if not rep.violations:
-            cli_part(rep, rng, tier, 60 if tier == "quick" else 300, use_coq=False, nfamilies=4)
+            cli_part(rep, rng, tier, 60 if tier == "quick" else 300, use_coq=False, nfamilies=4, ndisplay=8)
     finally:
         cleanup()
 
